@@ -31,6 +31,19 @@ def cache_stage(rep, work, vh, tier, seed, replay_sc=None):
     through the gates of the real filecache + jsondb, every gate passage validated by FileCacheTrace.tla."""
     q = tier == "quick"
     states, transitions, runs = rc.model_check(work, "FileCache", ["MC_C06_cache_quick.cfg"] if q else ["MC_C06_cache_quick.cfg", "MC_C06_cache.cfg"])
+    # for ANY number of writes and queries: the inductive invariant of FileCacheInd.tla, discharged by Apalache; and the two
+    # variants that must NOT be inductive (the code before 685493d, the seeded defect C06-d), as a guard against a vacuous proof
+    ind = []
+    ad = os.path.join(work, "apalache")
+    os.makedirs(ad)
+    for cinit, init, length, want in [("ConstInit", "CInit", 0, "NoError"), ("ConstInit", "IndInit", 1, "NoError"),
+                                      ("ConstInitOld", "IndInit", 1, "Error"), ("ConstInitRestat", "IndInit", 1, "Error")]:
+        r = vp.apalache(ad, "FileCacheInd", cinit, init, "CNext", "IndInv", length)
+        ind.append({"cinit": cinit, "init": init, "length": length, "outcome": r["outcome"], "expected": want, "wall_s": r["wall_s"]})
+        if r["outcome"] != want:
+            raise Infra("Apalache: inductive invariant of FileCacheInd (%s, %s, length %d) gave %s, expected %s: the model is out of date, not the code\n%s"
+                        % (cinit, init, length, r["outcome"], want, r["out"][-1500:]))
+    shutil.rmtree(ad, ignore_errors=True)
     scs = []
     if replay_sc:
         scs = [replay_sc]
@@ -81,7 +94,7 @@ def cache_stage(rep, work, vh, tier, seed, replay_sc=None):
         if '"a":"store"' in line or '"a":"hit"' in line or '"ev":"Quiet"' in line:
             finished += 1
     return {"states": states, "transitions": transitions, "runs": runs, "scenarios": len(scs), "events": events, "queries": finished,
-            "sample": scs[-1] if scs else None}
+            "sample": scs[-1] if scs else None, "inductive": ind}
 
 
 CONC_LEADS = [["list", "ccreate", "cwrite", "cunlink", "visit", "visit", "return"],
@@ -261,7 +274,10 @@ def run(prop, tier, seed, replay=None):
                                               "restat seed are replayed through the verif gates of the real filecache under a real jsondb (ReadStatusRecent / ReadStatusToday, "
                                               "Write of a second JSONDB, Update); every gate passage is matched with the specification's action by FileCacheTrace.tla and "
                                               "every returned status is compared with the version the file held when the query looked at it",
-                                      "sample": cstage["sample"]}
+                                      "sample": cstage["sample"],
+                                      "inductive_invariant": {"tool": "apalache-mc 0.58 (symbolic, integers unbounded)", "module": "FileCacheInd.tla",
+                                                              "claim": "IndInv (which implies C06_QueryFresh, C06_QueryNeverPanics, C06_EntryNotOlderThanStamp) is inductive for 3 concurrent queries and any number of writes and queries",
+                                                              "runs": cstage["inductive"]}}
         if kstage:
             states += kstage["states"]
             transitions += kstage["transitions"]
